@@ -59,7 +59,8 @@ func agentTraceCase(t *rapid.T, mode string) {
 			reqs = append(reqs, req{kind: rapid.SampledFrom([]string{"sasl", "sasl", "basic-auth", "api-authenticate", "ldap-bind", "ldap-search", "ldap-add", "ldap-modify", "ldap-delete", "ldap-compare",
 				"api-add-nosession", "api-remove-garbage-session", "api-update-wrong-oldpw", "api-list-user-token", "api-setadmin-nosession", "api-bad-json",
 				"api-setadmin-noop-adminsession", "api-setadmin-noop-adminsession", "api-setadmin-ghost-adminsession", "api-update-empty-newpw-adminsession",
-				"api-update-both-credentials", "api-update-both-credentials", "api-update-neither-credential", "api-add-existing-adminsession"}).Draw(t, "kind"),
+				"api-update-both-credentials", "api-update-both-credentials", "api-update-neither-credential", "api-add-existing-adminsession",
+				"api-update-oldpw-only", "api-update-oldpw-only"}).Draw(t, "kind"),
 				user: rapid.SampledFrom([]string{"alice", "root", "ghost", "../store/alice"}).Draw(t, "user"), pw: rapid.SampledFrom([]string{"alicepw", "rootpw", "wrong"}).Draw(t, "pw")})
 			if mode == "C03" {
 				reqs[len(reqs)-1].user = rapid.SampledFrom([]string{"../sibling/bob", "./alice", "alice/", "x/../alice", "../store/alice", s.root + "/sibling/bob", "", "..", ".tmp/x", "alice\x00", "-alice", "../decoy"}).Draw(t, "badname")
@@ -278,6 +279,12 @@ func agentTraceCase(t *rapid.T, mode string) {
 				post("/api/update", `{"username":"alice","newpassword":"changed-without-any-credential-9x!"}`)
 			case "api-add-existing-adminsession":
 				post("/api/add", `{"session":"`+adminSession()+`","username":"alice","password":"another-password-9x!","admin":true}`)
+			case "api-update-oldpw-only":
+				// the old password alone, no new one: a password check (what a replica sends to its master). Upgrades are off, the
+				// record is upgradeable: still nothing is written, whether the old password is right or wrong
+				post("/api/update", `{"username":"alice","oldpassword":"`+r.pw+`"}`)
+				time.Sleep(30 * time.Millisecond) // whatever the agent would do about it, it would do it after answering
+				vlib.Class("traced-password-check-of-an-upgradeable-record-with-upgrades-off")
 			case "api-update-empty-newpw-adminsession":
 				post("/api/update", `{"session":"`+adminSession()+`","username":"alice","newpassword":""}`)
 			}
